@@ -97,6 +97,8 @@ def run(chk):
     cdef = prog.method("Client", "__init__").param("ignore_exc")
     for pos, kw in created:
         v = kw.get("ignore_exc", "<not passed>")
+        if type(v).__name__ == "MaybeV" and v.v == Const(False) and cdef is not None and isinstance(cdef.default, ast.Constant) and cdef.default.value is False:
+            v = v.v  # passed as False or left to Client's default False: the same
         if v == "<not passed>" and "**" in kw:
             r3.undecided("PooledClient._create_client:ignore_exc", "the inner clients are constructed with a `**mapping` whose content the analysis lost")
             continue
